@@ -34,7 +34,7 @@ MUTANTS = [
       (V, "            ValueTag::Resolution => IppValue::Resolution {\n                cross_feed: data.get_i32(),\n                feed: data.get_i32(),\n                units: data.get_i8(),\n            },",
        "            ValueTag::Resolution => {\n                let units = data.get_i8();\n                IppValue::Resolution {\n                    cross_feed: data.get_i32(),\n                    feed: data.get_i32(),\n                    units,\n                }\n            }")]),
     ("m06-payload-dropped-from-into_read", ["C01", "C08", "C11", "C18"], RQ,
-     "io::Cursor::new(header).chain(self.payload)", "io::Cursor::new(header).chain(IppPayload::empty())"),
+     "\n        io::Cursor::new(header).chain(self.payload)", "\n        io::Cursor::new(header).chain(IppPayload::empty())"),
     ("m07-end-collection-2-byte-trailer", ["C01", "C03"], V,
      "buffer.put_u8(ValueTag::EndCollection as u8);\n                buffer.put_u32(0);", "buffer.put_u8(ValueTag::EndCollection as u8);\n                buffer.put_u16(0);"),
     ("m08-second-operation-group-dropped", ["C01"], A,
